@@ -95,6 +95,14 @@ func init() {
 		QuickRuns: 3000, QuickSecs: 60, ThorRuns: 50000, ThorSecs: 900,
 	})
 	Register(&Check{
+		ID: "C20", Engine: "netsim", Race: true,
+		Real:      []string{"threshold.Scheme", "disc.Member", "disc.SilentSynchronizer", "rbc.Receiver", "msg.Box", "mpc/bls TBLS", "mpc/ps TPS - all compiled with the Go race detector"},
+		Stub:      append([]string{"MPC backend (scripted) in the session-history scenarios", "the deviating participant's NIC (early / duplicated / out-of-phase / malformed DKG messages)"}, e1Stub...),
+		Rule:      "one case = one seeded run with concurrent dispatch (up to 4 deliveries into the same node started in one step, each on its own goroutine): 70% DKG (BLS/PS) with a deviating participant (early reveal, duplicates, late share, second commitment, withholding, malformed, none), 30% session histories (concurrent Sign on several topics, overlapping, cancelled, retried; KeyGen); oracle = Go race detector (GORACE=halt_on_error) plus panics; distinct = distinct schedule fingerprint; non-trivial = at least one step dispatched several deliveries concurrently",
+		Assume:    []string{"the race detector reports unordered conflicting accesses of the explored executions only", "goroutine interleaving inside a step is decided by the Go scheduler: a reported race replays with high probability, not certainty"},
+		QuickRuns: 1500, QuickSecs: 120, ThorRuns: 30000, ThorSecs: 1200, Batch: 25,
+	})
+	Register(&Check{
 		ID: "C13", Engine: "netsim",
 		Real:      []string{"threshold.Scheme (rbcEncoding, membership topic hash)", "disc.Member (tag/view encoding)", "rbc.Receiver", "msg.Box", "mpc/bls TBLS (StoredData / PublicParams ASN.1, Verifier)"},
 		Stub:      append([]string{"MPC backend (scripted, rounds 0..127) in part of the runs"}, e1Stub...),
